@@ -174,6 +174,8 @@ class Ctx:
         self._orig = {}
         self.t0 = time.time()
         self.deadline = None
+        self.partial_path = None  # set by the runner: violations are flushed here as soon as they are first seen, so that a
+        self._last_dump = 0.0     # shard killed by the watchdog (or crashing) still reports what its monitors observed
 
     # ------------------------------------------------------------------ bookkeeping
     def hit(self, point, n=1):
@@ -204,19 +206,38 @@ class Ctx:
     def violation(self, key, what, witness=None):
         key = f'{self.prop}/{key}'
         rec = self.violations.get(key)
-        if rec is None:
+        new = rec is None
+        if new:
             rec = {'key': key, 'count': 0, 'what': what, 'witnesses': []}
             self.violations[key] = rec
         rec['count'] += 1
         if len(rec['witnesses']) < MAX_WITNESS_PER_KEY:
             rec['witnesses'].append({'what': what, 'case': jsonable(self._case), 'witness': jsonable(witness),
                                      'shard': self.shard})
+        if new:
+            self.dump_partial()
+
+    def dump_partial(self):
+        if self.partial_path is None:
+            return
+        try:
+            res = self.result()
+            res['partial'] = True
+            tmp = self.partial_path + '.tmp'
+            with open(tmp, 'w') as f:
+                json.dump(res, f)
+            os.replace(tmp, self.partial_path)
+            self._last_dump = time.time()
+        except Exception:  # pragma: no cover - never let bookkeeping disturb the workload
+            pass
 
     def check(self, cond, key, what, witness=None, point=None):
         """one monitor-condition evaluation. Returns bool(cond)."""
         self.evaluations += 1
         if point is not None:
             self.hit(point)
+        if self.partial_path is not None and (self.evaluations & 1023) == 0 and time.time() - self._last_dump > 30:
+            self.dump_partial()
         try:
             ok = bool(cond)
         except Exception:  # ambiguous truth value etc. -> harness bug
